@@ -63,11 +63,11 @@ def cases(tier, seed):
                 stride = 1 if (thorough or name in ('idle', 'one-each')) else 2
                 out.append(dict(id='cut-%s-%s-%s' % (name, who, action), kind='cuts', base=name, who=who, action=action,
                                 stride=stride, seed=seed))
-    for idx in range(400 if thorough else 32):
+    for idx in range(1200 if thorough else 32):
         out.append(dict(id='rand-%d' % idx, kind='rand', seed=seed * 50021 + idx, count=40 if thorough else 12))
-    for idx in range(24 if thorough else 6):
+    for idx in range(96 if thorough else 6):
         out.append(dict(id='waiter-%d' % idx, kind='waiter', seed=seed * 7907 + idx, count=40 if thorough else 14))
-    for idx in range(8 if thorough else 2):
+    for idx in range(48 if thorough else 2):
         out.append(dict(id='slow-%d' % idx, kind='slow', seed=seed * 4243 + idx, count=30 if thorough else 12))
     # Agent.shutdown(): every contact of the agent, with or without a session, must end (real agents, fake listener sockets)
     idx = 0
